@@ -15,7 +15,20 @@ pub struct ReplayFile {
     pub signature: String,
     #[serde(default)]
     pub minimised: bool,
+    /// For `differs-in-fresh-process`: the worker history in which the case behaved
+    /// differently from a fresh process (tier, base seed, first index, stride, index).
+    #[serde(default)]
+    pub history: Option<History>,
     pub case: Case,
+}
+
+#[derive(Clone, Debug, Serialize, Deserialize)]
+pub struct History {
+    pub tier: String,
+    pub seed: u64,
+    pub offset: u64,
+    pub stride: u64,
+    pub index: u64,
 }
 
 pub fn to_json(case: &Case, verdict: &Verdict) -> String {
@@ -31,6 +44,7 @@ pub fn to_json(case: &Case, verdict: &Verdict) -> String {
         class,
         detail,
         minimised: false,
+        history: None,
         case: case.clone(),
     };
     serde_json::to_string_pretty(&f).unwrap()
